@@ -103,6 +103,8 @@ def _mlist(ps, ns, env):
         return False
     if not ns:
         return False
+    if ps[0] is None or ns[0] is None:
+        return ps[0] is None and ns[0] is None and _mlist(ps[1:], ns[1:], env)
     e2 = dict(env)
     if _m(ps[0], ns[0], e2) and _mlist(ps[1:], ns[1:], e2):
         env.clear()
